@@ -99,6 +99,10 @@ def warm_grid(grid, mask: int):
         lambda: grid.cube(),
         lambda: (grid.extent(), grid.cube_extent(), grid.domain()),
         lambda: (repr(grid), grid == grid, grid.same_domain_as(grid)),
+        lambda: grid.transform_vectors(torch.ones(1, grid.ndim), Axes.GRID, Axes.CUBE_CORNERS),
+        lambda: grid.transform_vectors(torch.ones(1, grid.ndim), Axes.WORLD, Axes.CUBE),
+        lambda: grid.world_to_index(grid.index_to_world(torch.zeros(1, grid.ndim))),
+        lambda: (grid.size_tensor(), grid.shape, grid.size(), grid.numel()),
     ]
     small = int(grid.numel()) <= 20000  # coords() / points() materialise one vector per sample
     for i, f in enumerate(calls):
@@ -119,8 +123,9 @@ def derive_grid(grid, steps, min_size: int = 1):
 
     applied = []
     for step in steps:
-        warm_grid(grid, int(step.get("warm", 0)))
         state = grid_state(grid)
+        warm_grid(grid, int(step.get("warm", 0)))
+        assert_grid_intact(grid, state, "read-only calls on a grid (coordinate maps, accessors)")
         op = step["op"]
         n = [int(v) for v in grid.size()]
         D = len(n)
@@ -167,6 +172,8 @@ def derive_grid(grid, steps, min_size: int = 1):
             start = min(int(step["start"]), max(n[dim] - min_size, 0))
             length = max(min(int(step["length"]), n[dim] - start), 1)
             new = grid.narrow(dim, start, length)
+        elif op == "use":  # the same Grid object, only used (read-only calls above)
+            new = grid
         elif op == "clone":
             new = grid.clone()
         elif op == "copy":
